@@ -102,9 +102,10 @@ Definition ix_set_fixed_price (b : pbank) (price : fx) : res pbank :=
            (pb_em_rate b) (pb_em_remaining b) (pb_em_mint b) (pb_rest b)).
 
 (* ---------------------------------------------------------------- emissions *)
-(* Bank::override_emissions_flag: assert!(verify_emissions_flags(flag)); self.flags = flag *)
-Definition override_emissions_flag (flag : Z) : res Z :=
-  if Z.land flag EMISSION_FLAGS =? flag then Ok flag else Err EPanic.
+(* Bank::override_emissions_flag: assert!(verify_emissions_flags(flag));
+   self.flags = (self.flags & !EMISSION_FLAGS) | flag *)
+Definition override_emissions_flag (flags flag : Z) : res Z :=
+  if Z.land flag EMISSION_FLAGS =? flag then Ok (Z.lor (Z.ldiff flags EMISSION_FLAGS) flag) else Err EPanic.
 
 (* transfer_checked(funding -> emissions vault, amount) of a classic SPL mint (no transfer fee) *)
 Definition em_transfer (w : pworld) (amount : Z) : res pworld :=
@@ -117,7 +118,7 @@ Definition em_transfer (w : pworld) (amount : Z) : res pworld :=
 Definition ix_setup_emissions (w : pworld) (mint flags rate total : Z) : res pworld :=
   let b := px_bank w in
   let* _ := check (pb_em_mint b =? 0) (E E_EmissionsAlreadySetup) in
-  let* f := override_emissions_flag flags in
+  let* f := override_emissions_flag (pb_flags b) flags in
   let b' := mkPB (mkCBank (cb_cfg (pb_c b)) f (cb_emode (pb_c b))) (pb_osetup b) (pb_fixed_price b)
                  rate (of_int total) mint (pb_rest b) in
   em_transfer (mkPX b' (px_meta w) (px_funding w) (Some 0) (px_vaults w) (px_users w) (px_group w) (px_others w)) total.
@@ -127,7 +128,13 @@ Definition ix_update_emissions (w : pworld) (mint : Z) (oflags orate oadd : opti
   let b := px_bank w in
   let* _ := check (negb (pb_em_mint b =? 0)) (E E_EmissionsUpdateError) in
   let* _ := check (pb_em_mint b =? mint) (E E_EmissionsUpdateError) in
-  let f := match oflags with Some x => x | None => pb_flags b end in      (* bank.flags = flags *)
+  (* check!(Bank::verify_emissions_flags(flags), IllegalFlag); bank.override_emissions_flag(flags) *)
+  let* f := match oflags with
+            | Some x =>
+                let* _ := check (Z.land x EMISSION_FLAGS =? x) (E E_IllegalFlag) in
+                override_emissions_flag (pb_flags b) x
+            | None => Ok (pb_flags b)
+            end in
   let r := match orate with Some x => x | None => pb_em_rate b end in
   match oadd with
   | None =>
@@ -260,8 +267,6 @@ Definition erase_emissions_fields (b : pbank) : pbank :=
   mkPB (pb_c b) (pb_osetup b) (pb_fixed_price b) 0 0 0 (pb_rest b).
 (* emissions rate, mint, remaining amount and the two emissions flags *)
 Definition erase_emissions (b : pbank) : pbank := erase_emissions_fields (erase_flag_bits b EMISSION_FLAGS).
-(* the same with the whole flag word erased *)
-Definition erase_emissions_and_flags (b : pbank) : pbank := erase_emissions_fields (with_flags b 0).
 Definition erase_risk (b : pbank) : pbank := erase_flag_bits b TOKENLESS_REPAYMENTS_COMPLETE.
 
 (* the world outside the bank, with the accounts an emissions instruction moves tokens between erased *)
@@ -276,14 +281,5 @@ Definition outside_metadata (w : pworld) : Z * option Z * Z * Z * Z * Z :=
 Definition is_bank_config_ix (ix : pix) : bool :=
   match ix with
   | PConfigure _ | PInterestOnly _ | PLimitsOnly _ _ _ | POracle _ _ _ | PFixedPrice _ => true
-  | _ => false
-  end.
-
-(* the two emissions instructions write the whole flag word (findings F1, F2): the freeze survives
-   exactly when the word they write carries it *)
-Definition writes_flags_without_freeze (ix : pix) : bool :=
-  match ix with
-  | PSetupEmissions _ _ _ _ => true
-  | PUpdateEmissions _ _ (Some x) _ _ => negb (flag_set x FREEZE_SETTINGS)
   | _ => false
   end.
